@@ -7,6 +7,7 @@ import (
 	"os"
 	"regexp"
 	"runtime"
+	"sort"
 	"strings"
 	"sync/atomic"
 	"testing"
@@ -69,6 +70,16 @@ func vfQuiesce() { synctest.Wait() }
 // has not finished after d it probes the process-wide stream tracker's lock: when that lock cannot be taken on several
 // attempts a violation is recorded (the replay file is the case) and the process exits with status 1; when the lock is
 // free the hang is somewhere else and the process exits with status 3 (inconclusive).
+// vfWatch: which check is running (set by the tests that run rwRun), so that rwRun can guard every case with the watchdog.
+type vfWatchInfo struct {
+	st         *vfshared.Stats
+	prop, part string
+}
+
+var vfWatch atomic.Pointer[vfWatchInfo]
+
+func vfSetWatch(st *vfshared.Stats, prop, part string) { vfWatch.Store(&vfWatchInfo{st: st, prop: prop, part: part}) }
+
 // vfCurrentSMs: the shard managers of the world the running case built (probed by vfLockWatchdog).
 var vfCurrentSMs atomic.Pointer[[]*shardManagerImpl]
 
@@ -127,8 +138,62 @@ func vfLockWatchdog(st *vfshared.Stats, prop, part string, c any, d time.Duratio
 			fmt.Fprintf(os.Stderr, "%s violated: %s (replay %s)\n", prop, msg, p)
 			os.Exit(1)
 		}
+		// no registry lock is held: look for goroutines that sit on a mutex inside repository code (per-object locks such as
+		// a sender's). In a virtual-time case nothing legitimately waits tens of real seconds for a mutex.
+		if where := vfMutexBlockedInRepo(); where != "" {
+			p := vfshared.WriteReplay(prop, part, c)
+			msg := fmt.Sprintf("the case did not finish within %s of real time: goroutine(s) of the proxy are blocked for good waiting for a mutex (dead-lock): %s", d, where)
+			st.Violation(p, msg)
+			st.Flush()
+			fmt.Fprintf(os.Stderr, "%s violated: %s (replay %s)\n", prop, msg, p)
+			os.Exit(1)
+		}
 		fmt.Fprintf(os.Stderr, "INCONCLUSIVE: the case did not finish within %s of real time, but none of the probed locks is held\n", d)
 		os.Exit(3)
 	}()
 	return func() { close(done) }
+}
+
+var vfMutexState = regexp.MustCompile(`^goroutine \d+ \[(sync\.(RW)?Mutex\.(R)?Lock|semacquire)[^\]]*\]:$`)
+
+// vfMutexBlockedInRepo samples all goroutine stacks twice, 2 s apart, and returns the repository functions in which the
+// same goroutines are waiting for a mutex both times ("" if none).
+func vfMutexBlockedInRepo() string {
+	sample := func() map[string]string {
+		buf := make([]byte, 8<<20)
+		n := runtime.Stack(buf, true)
+		out := map[string]string{}
+		for _, g := range strings.Split(string(buf[:n]), "\n\n") {
+			lines := strings.Split(g, "\n")
+			if len(lines) < 3 || !vfMutexState.MatchString(lines[0]) {
+				continue
+			}
+			id := strings.Fields(lines[0])[1]
+			for i := 1; i+1 < len(lines); i += 2 {
+				fn, file := lines[i], lines[i+1]
+				if (strings.Contains(file, "/repo/") || strings.Contains(file, "/s2s-proxy/")) && !strings.Contains(file, "/vf_") && !strings.Contains(file, "/vfshared/") {
+					if k := strings.Index(fn, "("); k > 0 {
+						fn = fn[:k]
+					}
+					out[id] = fn[strings.LastIndex(fn, "/")+1:] + " (" + strings.TrimSpace(strings.Fields(file)[0]) + ")"
+					break
+				}
+			}
+		}
+		return out
+	}
+	a := sample()
+	time.Sleep(2 * time.Second)
+	b := sample()
+	var where []string
+	for id, fn := range a {
+		if b[id] == fn {
+			where = append(where, fn)
+		}
+	}
+	sort.Strings(where)
+	if len(where) > 4 {
+		where = where[:4]
+	}
+	return strings.Join(where, "; ")
 }
